@@ -1,218 +1,17 @@
 /-
-  C04 — what the property demands, written against the *documented* three-way table and as local
-  conditions on each observed operation; nothing here runs the cache machine of the model
-  (only `known`, which predicts where the pinned tree is already known to deviate, does).
+  C04 — the check's entry point.  Ordinary cases (class chain, instances, history; `Spec/C04Base.lean`) go through
+  `runCheck check` unchanged; cases with `"kind": "script"` (T3; `Spec/C04Script.lean`) compare the parsed source
+  of the generated `__hash__` with the model generator's script.
 -/
-import AttrsModel.Model.C04
+import AttrsModel.Spec.C04Base
+import AttrsModel.Spec.C04Script
 
 namespace Attrs.C04
+open Lean
 
-/-! ## The documented table (docs/hashing.md, `define`'s docstring, the property statement) -/
-
-/-- generated iff unsafe_hash=True, or unsafe_hash unset ∧ eq on ∧ frozen (also by inheritance) — unless
-    the inherited hash is left untouched -/
-def docGenerated (f : Facts) : Bool :=
-  !f.isExc && (f.hashArg == some true || (f.hashArg == none && !f.detected && f.eqOn && f.frozenEff))
-
-/-- made unhashable iff unsafe_hash unset ∧ eq on ∧ not frozen -/
-def docUnhashable (f : Facts) : Bool :=
-  !f.isExc && f.hashArg == none && !f.detected && f.eqOn && !f.frozenEff
-
-/-- left untouched iff eq is off, or an own `__hash__` was auto-detected, or auto_exc exception class -/
-def docUntouched (f : Facts) : Bool :=
-  f.isExc || (f.hashArg != some true && !f.eqOn) || (f.hashArg == none && f.detected)
-
-/-- the excluded legacy row: `unsafe_hash=False` with eq on -/
-def legacyRow (f : Facts) : Bool := f.hashArg == some false && f.eqOn
-
-def docOutcome (f : Facts) : Outcome :=
-  if docGenerated f then .generated else if docUnhashable f then .unhashable else .untouched
-
-/-! ## Well-formedness -/
-
-def flag3 : Flag → Bool
-  | .pyNone => false
-  | _ => true
-
-def wfCls (c : Cls) : Bool :=
-  flag3 c.frozen && flag3 c.slots && flag3 c.autoDetect && flag3 c.autoExc && flag3 c.cacheHash &&
-  (match c.api with
-   | .plain =>
-     c.eq == .unset && c.cmp == .unset && c.hash == .unset && c.unsafeHash == .unset && c.init == .unset &&
-     c.getstateSetstate == .unset &&
-     c.frozen == .unset && c.slots == .unset && c.autoDetect == .unset && c.autoExc == .unset &&
-     c.cacheHash == .unset && c.fields == [] && !c.ownInit
-   | .attrS => true
-   | _ => c.cmp == .unset) &&
-  -- `cmp` mixed with `eq` is C15's business; the legacy row is excluded by the property
-  (c.api == .plain ||
-    (!(facts c false false).mixErr && !legacyRow (facts c false false)))
-
-def distinct (l : List String) : Bool := l.eraseDups.length == l.length
-
-def allFields (c : Case) : List Field := c.chain.flatMap (·.fields)
-
-/-- does the history create or use instances -/
-def usesInstances (c : Case) : Bool := !c.insts.isEmpty || !c.ops.isEmpty
-
-def valsOk (c : Case) (n : Nat) (vs : List Nat) : Bool :=
-  vs.length == n && vs.all (· < c.eqc.length)
-
-/-- indices in range, values in the domain, copies only where `copyOk` (see `wf`), and
-    no field write after the first hash of the same instance -/
-def wfOps (c : Case) (nF : Nat) (copyOk : Bool) : Nat → List Nat → List Op → Bool
-  | _, _, [] => true
-  | n, hashed, .hash i alt :: rest => i < n && valsOk c nF alt && wfOps c nF copyOk n (i :: hashed) rest
-  | n, hashed, .copy i :: rest => i < n && copyOk && wfOps c nF copyOk (n + 1) hashed rest
-  | n, hashed, .deepcopy i :: rest => i < n && copyOk && wfOps c nF copyOk (n + 1) hashed rest
-  | n, hashed, .pickle i :: rest => i < n && copyOk && wfOps c nF copyOk (n + 1) hashed rest
-  | n, hashed, .evolve i ch :: rest =>
-    i < n && ch.all (fun fv => fv.1 < nF && fv.2 < c.eqc.length) && wfOps c nF copyOk (n + 1) hashed rest
-  | n, hashed, .assoc i ch :: rest =>
-    i < n && copyOk && ch.all (fun fv => fv.1 < nF && fv.2 < c.eqc.length) && wfOps c nF copyOk (n + 1) hashed rest
-  | n, hashed, .set i f v :: rest =>
-    i < n && f < nF && v < c.eqc.length && !hashed.contains i && wfOps c nF copyOk n hashed rest
-
-/-- K3 of C01/C08/C10 (not this property's business): the class whose `__init__` runs is a frozen dict
-    class and `base_attr_map` names, for a field that is a slot of some base, a class without
-    `__slots__`; the value lands in `__dict__` and the field cannot be read.  `lf` is leaf-first. -/
-def k3shape (lf : List Node) : Bool :=
-  match lf.dropWhile (fun n => !n.isAttrs) with
-  | [] => false
-  | m :: below =>
-    m.facts.frozenEff && !m.facts.slotsEff &&
-    -- attr.s's legacy collection attributes every inherited field to the direct base; collection by
-    -- MRO (define / frozen) attributes each field to the class that owns it and is never wrong here
-    m.cls.api == .attrS &&
-      (match below with
-       | [] => false
-       | p :: _ => !(p.isAttrs && p.facts.slotsEff) &&
-                   below.any (fun n => n.isAttrs && n.facts.slotsEff && !n.cls.fields.isEmpty))
-
-def wf (c : Case) : Bool :=
-  let ns := nodesWith docOutcome c
-  let L := layoutOf ns
-  !c.chain.isEmpty && c.chain.all wfCls &&
-  distinct ((allFields c).map (·.name)) &&
-  c.keyMap.length == c.eqc.length && c.hcode.length == c.eqc.length &&
-  c.eqc.all (· < c.eqc.length) && c.keyMap.all (· < c.eqc.length) &&
-  (!usesInstances c ||
-    (!k3shape ns.reverse &&
-     c.chain.all (fun k => k.api == .plain || (!k.ownInit && (facts k false false).initOn)) &&
-     c.insts.all (valsOk c L.nFields) &&
-     -- copies: not of exception instances (BaseException has its own reduce protocol) and not where the
-     -- state methods that resolve belong to a base or are switched off on a slotted class (C10)
-     wfOps c L.nFields (L.copyMode != .unsupported && !c.excBase) c.insts.length [] c.ops))
-
-/-! ## Known deviations of the pinned tree -/
-
-def isHashOp : Op → Bool
-  | .hash _ _ => true
-  | _ => false
-
-def hasHashOp (c : Case) : Bool := c.ops.any isHashOp
-
-/-- K1: the `__hash__` that resolves is a caching one, but the `__init__` that runs (and the
-    `__setstate__`) belong to a class that does not cache: `_attrs_cached_hash` is never created -/
-def k1 (L : Layout) : Bool :=
-  match L.hres with
-  | .gen n => n.facts.cacheOn && !L.initCache
-  | _ => false
-
-/-- K2: frozen dict caching class below a slotted caching class: the cache line writes `__dict__`, the
-    slot found on the MRO stays empty -/
-def k2 (L : Layout) : Bool :=
-  match L.hres with
-  | .gen n => n.facts.cacheOn && L.initCache && L.initDirect && L.hasSlot
-  | _ => false
-
-/-- K5: a hash call that returns a cached value which is no longer the hash of the instance's fields
-    (under `wf` only reachable by writing to a shallow copy of an already hashed dict instance) -/
-def k5 (c : Case) (L : Layout) (rs : List Res) : Bool :=
-  match L.hres with
-  | .gen _ => (c.ops.zip rs).any (fun p => isHashOp p.1 && p.2.out == .ok && !p.2.sameUncached)
-  | _ => false
-
-def known (c : Case) : List String :=
-  let ns := nodesWith codeOutcome c
-  if built ns && hasHashOp c then
-    let L := layoutOf ns
-    (if k1 L then ["K1"] else []) ++ (if k2 L then ["K2"] else []) ++
-    (if k5 c L (model c).results then ["K5"] else [])
-  else []
-
-/-! ## The specification -/
-
-def specKind (n : Node) (o : ClsObs) : Bool :=
-  match o with
-  | .typeError =>
-    -- documented: cache_hash needs a generated hash and a generated __init__
-    n.facts.cacheOn && (n.outcome != .generated || !n.facts.initOn)
-  | .valueError => n.facts.mixErr
-  | k =>
-    match n.outcome with
-    | .generated => k == .generated
-    | .unhashable => k == .isNone
-    | .untouched => k == naturalKind n.cls
-
-/-- observed class kinds against the documented table; the list stops at the first error -/
-def specClasses : List Node → List ClsObs → Bool
-  | [], [] => true
-  | n :: ns, o :: os =>
-    specKind n o &&
-    (if o == .typeError || o == .valueError then os.isEmpty else specClasses ns os)
-  | _, _ => false
-
-def isHashOn (i : Nat) : Op → Bool
-  | .hash j _ => i == j
-  | _ => false
-
-def computed (r : Res) : Bool := r.nKey + r.nVal > 0
-
-def specOp (c : Case) (L : Layout) (op : Op) (r : Res) : Bool :=
-  match op with
-  | .hash _ alt =>
-    (match L.hres with
-     | .gen n =>
-       -- never raises
-       r.out == .ok &&
-       -- stable, and (with cache_hash) equal to the uncached value
-       r.sameUncached &&
-       -- a function of the class and the participating (keyed) values only
-       (!(agreeOn c.veq c.key n.fields r.vals alt) || r.hashAlt) &&
-       -- equal ⇒ equal hashes, when `__eq__` and `__hash__` are generated over the same fields (same
-       -- class, or a subclass that adds none) and no field is hashed that is not compared
-       (match L.eres with
-        | .gen m => !(m.fields == n.fields && hashWithinEq n.fields && r.eqAlt) || r.hashAlt
-        | .ident => true)
-     | .ident | .const => r.out == .ok
-     | .unhashable => true)
-  | _ => true
-
-/-- with cache_hash: at most one computing `hash` call per instance -/
-def onceOk (ops : List Op) (rs : List Res) (n : Nat) : Bool :=
-  (List.range n).all (fun i => ((ops.zip rs).filter (fun p => isHashOn i p.1 && computed p.2)).length ≤ 1)
-
-def specOps (c : Case) (L : Layout) : List Op → List Res → Bool
-  | [], [] => true
-  | op :: ops, r :: rs => specOp c L op r && specOps c L ops rs
-  | _, _ => false
-
-def isErrKind (k : ClsObs) : Bool := k == .typeError || k == .valueError
-
-def spec (c : Case) (o : Obs) : Bool :=
-  let ns := nodesWith docOutcome c
-  specClasses ns o.classes &&
-  (if o.classes.any isErrKind then o.results.isEmpty
-   else
-     let L := layoutOf ns
-     specOps c L c.ops o.results &&
-     (match L.hres with
-      | .gen n => !n.facts.cacheOn || onceOk c.ops o.results (c.insts.length + c.ops.length)
-      | _ => true))
-
-def check : Check Case Obs := { model := model, spec := spec, wf := wf, known := known }
-
-def handle := runCheck check
+def handle (case obs : Json) : Except String Reply :=
+  match case.getObjValAs? String "kind" with
+  | .ok "script" => Script.handle case obs
+  | _ => runCheck check case obs
 
 end Attrs.C04
